@@ -440,11 +440,11 @@ impl<
         while index > 0 && self.timestamps()[index] >= timestamp {
             index -= 1;
         }
-        let index = if index == 0 {
-            // The first transition is a dummy that we insert, so if we land on
-            // it here, treat it as if it doesn't exist.
-            return None;
-        } else if index == self.timestamps().len() - 1 {
+        // N.B. We check whether we landed on the last transition first, since
+        // it might also be the first (dummy) transition. That's the case
+        // for TZif data without any transitions but with a POSIX TZ string,
+        // for which all transitions come from the latter.
+        if index == self.timestamps().len() - 1 {
             if let Some(ref posix_tz) = self.posix_tz() {
                 // Since the POSIX TZ must be consistent with the last
                 // transition, it must be the case that tzif_last <=
@@ -474,14 +474,15 @@ impl<
                     }
                 }
             }
-            index
-        } else {
-            index
-        };
+        }
+        if index == 0 {
+            // The first transition is a dummy that we insert, so if we land on
+            // it here, treat it as if it doesn't exist.
+            return None;
+        }
         // TZif data can contain transitions that don't change anything.
         // (`zic` emits them in some cases.) They aren't transitions as far
         // as callers are concerned, so skip over them.
-        let mut index = index;
         while index > 0 && self.is_noop_transition(index) {
             index -= 1;
         }
